@@ -70,9 +70,15 @@ def _case(draw, tier):
             if nv == 2 and chance(draw, 1, 2):
                 return ["sub", "set_of", allv, _small_cond(draw, ctx, allv)]
             v = draw(st.sampled_from(allv))
+            if nv == 2 and chance(draw, 1, 3):
+                # a disjunction inside the sub-query that joins the variable the sub-query does NOT select
+                c = ["or", draw(st.sampled_from(["nary", "binl"])), [leaf(draw, ctx, allv), leaf(draw, ctx, draw(st.sampled_from([allv, [v], [1 - v]])))]]
+                if draw(st.booleans()):
+                    c[2].reverse()
+                return ["sub", "entity", [v], c]
             return ["sub", "entity", [v], _small_cond(draw, ctx, allv if chance(draw, 1, 3) else [v])]
-        parts = [sub(), sub()]
-        if chance(draw, 1, 3):
+        parts = [sub(), sub()] if chance(draw, 3, 4) else [sub()]
+        if chance(draw, 1, 3) or len(parts) == 1:
             parts.insert(draw(st.integers(0, 2)), _small_cond(draw, ctx, allv))
         conn = draw(st.sampled_from(["and", "or"]))
         form = draw(st.sampled_from(["nary", "binl", "binr"]))
@@ -153,7 +159,7 @@ def check(case) -> Outcome:
                 if pos == "argument" and not isinstance(l, CLASSES["Ent"]):
                     continue
                 lv = A.eval_term(case["outer_term"], {0: l})
-                if any(lv is w for w in sub_rows) and (extra is None or A.eval_cond(extra, {0: l})):
+                if any(lv == w for w in sub_rows) and (extra is None or A.eval_cond(extra, {0: l})):
                     expected.append((l,))
             nontrivial = 0 < len(sub_rows) < len(doms[1]) and 0 < len(expected) < len(doms[0])
             classes += ["sub_" + case["sub_quant"], "sub_on_" + case["sub_side"]]
